@@ -38,6 +38,13 @@ Init == /\ \E f \in Families : cfg \in CfgSpace(f)
         /\ h = [c \in Comps(cfg) |-> <<>>]
         /\ ref = IF Mode = "abs" THEN RunImpl(Impl, cfg, s, h) ELSE <<>>
 
+(* negative control for C05: the domain restriction dropped *)
+InitAny == /\ \E f \in Families : cfg \in CfgSpace(f)
+           /\ s = InitState(cfg)
+           /\ ph = "run"
+           /\ h = [c \in Comps(cfg) |-> <<>>]
+           /\ ref = RunImpl(Impl, cfg, s, h)
+
 Finish == /\ ph = "run" /\ ~MayUpdate(cfg, s)
           /\ ph' = "done" /\ UNCHANGED <<cfg, s, h, ref>>
 
